@@ -117,6 +117,11 @@ type input struct {
 	SLen   int       `json:"slen"` // scratch buffer handed to Compress (GPFile: 8192, 8192)
 	SCap   int       `json:"scap"`
 	Blocks []blockIn `json:"blocks"`
+	// damage done to the stored bytes of block DmgBlock (1-based; 0: none) between writing and reading: "magic"
+	// flips a bit in the first byte of the frame, "mid" in its middle, "trunc" makes the header announce 3 bytes less.
+	// The blocks after it are intact and are read with the SAME decoder object (GPFile keeps one per file).
+	DmgBlock int    `json:"dmg_block,omitempty"`
+	DmgMode  string `json:"dmg_mode,omitempty"`
 }
 
 // header entry (storage.Block)
@@ -413,6 +418,21 @@ func bndCase(k int) input {
 	return in
 }
 
+// dmgCase: a column of five compressible blocks of which the second is damaged on disk; the following blocks are
+// intact and must be read back by every reader build (one decoder object per file, as GPFile keeps it)
+const nDmg = 24
+
+func dmgCase(k int) input {
+	ri, e, m := k%4, (k/4)%2, k/8
+	in := input{W: cfgNames[(ri+1+m)%4], R: cfgNames[ri], Enc: []string{"zstd", "lz4"}[e], SLen: 8192, SCap: 8192,
+		DmgBlock: 2, DmgMode: []string{"magic", "mid", "trunc"}[m]}
+	for j, b := range []blockIn{{Kind: "text", Size: 3000}, {Kind: "counters", Size: 5000}, {Kind: "text", Size: 800}, {Kind: "tile", Size: 20000}, {Kind: "text", Size: 1200}} {
+		b.Seed = uint64(9000 + 8*k + j)
+		in.Blocks = append(in.Blocks, b)
+	}
+	return in
+}
+
 func gen(r *vhlib.Rand, i int, o vhlib.Opts) any {
 	// the first 48 cases: all 16 writer/reader pairs x 3 encoders, each a small "database column": an
 	// empty block, a tiny (growing) block, two compressible blocks (one larger than the scratch buffer) and an
@@ -444,6 +464,9 @@ func gen(r *vhlib.Rand, i int, o vhlib.Opts) any {
 	}
 	if i < 64+nBig+nBnd {
 		return bndCase(i - 64 - nBig)
+	}
+	if i < 64+nBig+nBnd+nDmg {
+		return dmgCase(i - 64 - nBig - nBnd)
 	}
 	in := input{W: vhlib.Pick(r, cfgNames), R: vhlib.Pick(r, cfgNames), SLen: 8192, SCap: 8192}
 	switch x := r.Intn(100); {
@@ -502,6 +525,11 @@ func gen(r *vhlib.Rand, i int, o vhlib.Opts) any {
 				in.Level = 1 + r.Intn(6)
 			}
 		}
+		return in
+	}
+	if in.Enc != "null" && len(in.Blocks) >= 2 && r.Chance(12) { // a damaged block followed by intact ones
+		in.DmgBlock = 1 + r.Intn(len(in.Blocks)-1)
+		in.DmgMode = vhlib.Pick(r, []string{"magic", "mid", "trunc"})
 		return in
 	}
 	if r.Chance(20) { // scratch sized relative to one of the blocks, that block incompressible
@@ -589,7 +617,27 @@ func run(raw json.RawMessage, o vhlib.Opts) (*vhlib.Case, error) {
 		if len(wrep.Resolved) != len(in.Blocks) || len(wrep.Hdr) != len(in.Blocks) {
 			return nil, fmt.Errorf("writer %s answered %d/%d blocks for %d", in.W, len(wrep.Resolved), len(wrep.Hdr), len(in.Blocks))
 		}
-		rrep, crashed, err := call(in.R, request{Op: "read", In: rin, File: file, Hdr: wrep.Hdr}, o)
+		rhdr := append([]hdrEntry{}, wrep.Hdr...)
+		if k := in.DmgBlock - 1; k >= 0 && k < len(rhdr) && rhdr[k].Len > 3 {
+			switch in.DmgMode {
+			case "trunc":
+				rhdr[k].Len -= 3
+			default:
+				fb, err := os.ReadFile(file)
+				if err != nil {
+					return nil, err
+				}
+				pos := rhdr[k].Off
+				if in.DmgMode == "mid" {
+					pos += uint64(rhdr[k].Len / 2)
+				}
+				fb[pos] ^= 0x40
+				if err := os.WriteFile(file, fb, 0o600); err != nil {
+					return nil, err
+				}
+			}
+		}
+		rrep, crashed, err := call(in.R, request{Op: "read", In: rin, File: file, Hdr: rhdr}, o)
 		if err != nil {
 			return nil, err
 		}
@@ -599,6 +647,9 @@ func run(raw json.RawMessage, o vhlib.Opts) (*vhlib.Case, error) {
 			}
 		} else {
 			ob.Blocks = rrep.Blocks
+		}
+		for i := range ob.Blocks { // the length the WRITER recorded
+			ob.Blocks[i].Len = wrep.Hdr[i].Len
 		}
 	}
 	nontrivial := ob.WClass == "ok"
@@ -628,8 +679,11 @@ func run(raw json.RawMessage, o vhlib.Opts) (*vhlib.Case, error) {
 			fmt.Sprintf("blocks:%d", len(in.Blocks)), fmt.Sprintf("stored-compressed:%d", comp),
 			"lz4 " + implName(in.W, "lz4") + "->" + implName(in.R, "lz4"), "zstd " + implName(in.W, "zstd") + "->" + implName(in.R, "zstd")}}
 	c.Tags = append(c.Tags, bnd...)
-	c.Coq = fmt.Sprintf("Case %s %s %s %s %s %s %s %s", coqCfg[in.W], coqCfg[in.R], coqEnc[in.Enc], vhlib.CoqZ(int64(in.Level)),
-		vhlib.CoqN(uint64(in.SLen)), vhlib.CoqN(uint64(in.SCap)), vhlib.CoqN(coqClass[ob.WClass]), "["+strings.Join(bl, "; ")+"]")
+	if in.DmgBlock > 0 {
+		c.Tags = append(c.Tags, "damaged-block:"+in.DmgMode)
+	}
+	c.Coq = fmt.Sprintf("Case %s %s %s %s %s %s %s %s %s", coqCfg[in.W], coqCfg[in.R], coqEnc[in.Enc], vhlib.CoqZ(int64(in.Level)),
+		vhlib.CoqN(uint64(in.SLen)), vhlib.CoqN(uint64(in.SCap)), vhlib.CoqN(coqClass[ob.WClass]), vhlib.CoqN(uint64(in.DmgBlock)), "["+strings.Join(bl, "; ")+"]")
 	return c, nil
 }
 
